@@ -27,17 +27,17 @@ type specErr string
 func sfail(f string, a ...interface{}) { panic(specErr(fmt.Sprintf(f, a...))) }
 
 type SEnv struct {
-	vc      *VC
-	cur     *State
-	old     *State
-	vars    map[string]*SVal
-	oldVars map[string]*SVal
-	local   func(name string, st *State) *SVal
-	pkgPath string
-	depth   int
+	vc          *VC
+	cur         *State
+	old         *State
+	vars        map[string]*SVal
+	oldVars     map[string]*SVal
+	local       func(name string, st *State) *SVal
+	pkgPath     string
+	depth       int
 	unfoldDepth int
-	nq      *int
-	proving bool
+	nq          *int
+	proving     bool
 }
 
 func (vc *VC) newEnv(cur, old *State, pkgPath string) *SEnv {
@@ -831,6 +831,24 @@ func (env *SEnv) builtin(name string, args []*SExpr, e *SExpr) *SVal {
 			sfail("%v", err)
 		}
 		return &SVal{T: vc.tagMatches(vc.ifTag(x.T), T), Go: tb}
+	case "lowmask32":
+		need(1)
+		x := env.materialize(env.tr(args[0]), types.Typ[types.Uint])
+		if vc.isBV() {
+			sfail("lowmask32 is an int-mode builtin")
+		}
+		return &SVal{T: vc.lowMask(env.cur, IntLit64(32), x.T), Go: types.Typ[types.Uint32]}
+	case "wordbit":
+		// wordbit(w, j): bit j of the unsigned word w (0 <= j < width)
+		need(2)
+		w := env.materialize(env.tr(args[0]), types.Typ[types.Uint32])
+		j := env.materialize(env.tr(args[1]), types.Typ[types.Int])
+		if vc.isBV() {
+			jj := vc.convInt(j.T, j.Go, w.Go)
+			one := vc.intConst(big.NewInt(1), w.Go)
+			return &SVal{T: Eq(App("bvand", w.T.S, App("bvlshr", w.T.S, w.T, jj), one), one), Go: tb}
+		}
+		return &SVal{T: vc.wbit(w.T, j.T), Go: tb}
 	case "reverse32", "tz32", "popcount32":
 		need(1)
 		x := env.materialize(env.tr(args[0]), types.Typ[types.Uint32])
